@@ -11,7 +11,6 @@ import (
 	"sort"
 	"strconv"
 	"strings"
-	"sync"
 	"time"
 
 	"golang.org/x/tools/go/ssa"
@@ -212,28 +211,16 @@ func cmdCheck(args []string) {
 	}
 	cfg := solveCfg{quickS: tmo[0], fullS: tmo[1], workers: 16}
 
-	results := make([]*FuncResult, len(fns))
-	var wg sync.WaitGroup
-	sem := make(chan bool, 8)
-	for i, f := range fns {
-		wg.Add(1)
-		go func(i int, f *ssa.Function) {
-			defer wg.Done()
-			sem <- true
-			results[i] = e.verifyFunc(f, sc.ExtraKinds)
-			<-sem
-		}(i, f)
-	}
-	wg.Wait()
-	// lemmas
+	var lems []*Lemma
 	for _, lp := range sc.Lemmas {
 		re := regexp.MustCompile(lp)
 		for _, lm := range e.lemmas {
 			if re.MatchString(lm.Name) {
-				results = append(results, e.verifyLemma(lm))
+				lems = append(lems, lm)
 			}
 		}
 	}
+	results := e.generateAll(fns, lems, sc.ExtraKinds)
 	// kind filter
 	if len(sc.Kinds) > 0 {
 		keep := map[string]bool{"cover": true}
